@@ -646,6 +646,54 @@ Theorem C01_test_list_later_examples :
 Proof. exact RejectExamples.ex_missing_comma_in_test_list. Qed.
 Print Assumptions C01_test_list_later_examples.
 
+(* malformed string lists (empty, missing comma, trailing comma, not closed) in the arguments of a test that still needs arguments *)
+Theorem C01_malformed_string_list_in_test_rejected :
+  forall T : tables,
+  twf_tables T = true ->
+  forall (text : bytes) (pre : list token) (tn tl : token) (a0toks : list token) 
+    (lb : token) (ltoks : list token) (t : token) (rest : list token) 
+    (L : list bytes) (prev : option bytes) (k : nat) (d : cmddef) 
+    (a : argdef) (dl : cmddef) (args0 : list argument) (fN : frame) 
+    (items : list bytes) (tc : bool),
+  wf_prefix T (map strip_pos pre) L prev k ->
+  fst (lex text) = pre ++ tn :: tl :: a0toks ++ lb :: ltoks ++ t :: rest ->
+  t_kind tn = TIdentifier ->
+  get_command_instance T L (t_val tn) = inl d ->
+  d_type d = CControl ->
+  d_accept_children d = true ->
+  d_args d = [a] ->
+  is_t1 a = true ->
+  t_kind tl = TIdentifier ->
+  get_command_instance T L (t_val tl) = inl dl ->
+  d_type dl = CTest ->
+  d_expected_first dl = None ->
+  iscomplete (new_frame dl (at_of a)) None = false ->
+  Forall arg_ok args0 ->
+  map strip_pos a0toks = flat_map arg_toks args0 ->
+  feed (new_frame dl (at_of a)) args0 L = FOk fN ->
+  iscomplete fN None = false ->
+  strip_pos lb = mk TLeftBracket [91%N] ->
+  map strip_pos ltoks = open_items items tc ->
+  Forall (fun s : bytes => utf8_valid s = true) items ->
+  (items = [] -> tc = false) ->
+  not_comment (t_kind t) = true ->
+  (if match items with
+      | [] => true
+      | _ :: _ => tc
+      end
+   then kind_mem (t_kind t) [TString] = false
+   else kind_mem (t_kind t) [TComma; TRightBracket] = false) ->
+  parse T text = Reject EExpected (t_pos t) (Datatypes.length (t_val t)).
+Proof. exact RejectFacts.malformed_string_list_in_test_rejected. Qed.
+Print Assumptions C01_malformed_string_list_in_test_rejected.
+
+(* non-vacuity: `if header ["a" "b"] "x" { }` rejected at the second string *)
+Theorem C01_malformed_list_in_test_example :
+  parse gen_tables (bs (px_text ++ "if header [""a"" ""b""] ""x"" { } }")) =
+  Reject EExpected 61 3.
+Proof. exact RejectExamples.ex_malformed_list_in_test. Qed.
+Print Assumptions C01_malformed_list_in_test_example.
+
 (* in the arguments of a test that still needs arguments: a tag it does not take, a tag whose extension is not loaded, a value of the wrong type -- rejected at that token *)
 Theorem C01_test_argument_rejected :
   forall T : tables,
@@ -701,7 +749,7 @@ Theorem C01_misplaced_else_example :
 Proof. exact RejectExamples.ex_misplaced_else. Qed.
 Print Assumptions C01_misplaced_else_example.
 
-(* non-vacuity on the generated tables (one of twenty-eight examples in sieve/RejectExamples.v: prefix `require ["fileinto"]; if size :over 100K {`) *)
+(* non-vacuity on the generated tables (one of twenty-nine examples in sieve/RejectExamples.v: prefix `require ["fileinto"]; if size :over 100K {`) *)
 Theorem C01_reject_examples :
   let text := bs (px_text ++ "foo ""x""; }") in
   parse gen_tables text = Reject (EUnknownCommand (bs "foo")) 46 3 /\
